@@ -56,6 +56,17 @@ fn run(op: &str, args: &[Sx]) -> Option<Sx> {
                 Err(e) => sx::err(&e),
             }
         }
+        // (fmt-cx (re rawrat) re_pi (im rawrat) im_pi style_tag style_n comma) -> ("ok" (cps))
+        "fmt-cx" => {
+            if args.len() < 7 { return Some(sx::bad()); }
+            let (Some(re), Some(rp), Some(im), Some(ip), Some(st), Some(n), Some(comma)) =
+                (rawrat_l(&args[0]), args[1].as_u64(), rawrat_l(&args[2]), args[3].as_u64(), args[4].as_u64(), args[5].as_u64(), args[6].as_u64())
+                else { return Some(sx::bad()) };
+            match hk::format_complex(&re, rp != 0, &im, ip != 0, hk::Style { tag: st as u8, n }, comma != 0) {
+                Ok(t) => sx::ok(sx::cps(&t)),
+                Err(e) => sx::err(&e),
+            }
+        }
         // (fmt-int (limbs) force_large base_tag base write_prefix sf_some sf) -> ("ok" (cps) exact num_digits)
         "fmt-int" => {
             if args.len() < 7 { return Some(sx::bad()); }
